@@ -1,3 +1,3 @@
 SPECIFICATION TSpec
-INVARIANT NotBad
+CONSTRAINT Report
 CHECK_DEADLOCK FALSE
